@@ -306,4 +306,71 @@ PROPS.update({
                      'getattr(sys.modules[m], n, None) is a function of (m, n)']),
 })
 
+PROPS.update({
+    'C15': dict(
+        level_text='Deductive proof of the sequential code with a ghost execution log: _run_model_for_batch builds exactly '
+                   'one model (from the run\'s own arguments), calls model.execute() only while the model is running and '
+                   'below the step limit (call-site assertion), and returns that model\'s own collector records (or None); '
+                   'batch_run executes build() x repetitions, one log entry per execution in product x repetition order, '
+                   'keeps exactly one result per execution (loop invariant), lets an exception of any execution propagate '
+                   '(no handler on the path), and in the parallel branch hands the same list to imap_unordered, whose '
+                   'assumed contract (each input once, some order) yields one result per execution.',
+        level_note='No schedule is explored: "whatever the number of processes or their scheduling" rests entirely on the '
+                   'assumed Pool contract; user model constructors are assumed to build well-formed models; several '
+                   'collector names (dict comprehension) and non-ParameterList parameters are exercised natively only; '
+                   'termination of the run loop is not proved.',
+        functions=['Batching._run_model_for_batch#nocollector', 'Batching._run_model_for_batch#collector',
+                   'Batching.batch_run'],
+        assumptions=BATCH_ASSUME + ['model_cls(**kwargs) returns a well-formed Model (scheduler invariant of C01/C02)']),
+})
+
+WRITERS = {
+    '_status': ['Core.Model.__init__', 'Core.Model.complete'],
+    'timestep': ['Core.SystemManager.__init__', 'Core.SystemManager.execute_systems'],
+    'execution_queue': ['Core.SystemManager.__init__', 'Core.SystemManager.add_system', 'Core.SystemManager.remove_system'],
+    'systems': ['Core.Model.__init__', 'Core.SystemManager.__init__', 'Core.SystemManager.add_system',
+                'Core.SystemManager.remove_system'],
+    'component_pools': ['Core.SystemManager.__init__', 'Core.SystemManager.register_component',
+                        'Core.SystemManager.deregister_component'],
+    'agents': ['Core.Environment.__init__', 'Core.Environment.add_agent', 'Core.Environment.remove_agent'],
+    'components': ['Core.Agent.__init__', 'Core.Agent.add_component', 'Core.Agent.remove_component'],
+    '_components': ['Core._MetaAgent.__init__', 'Core._MetaAgent.add_class_component',
+                    'Core._MetaAgent.remove_class_component'],
+    '_tag': ['Core._MetaAgent.__init__', 'Core._MetaAgent.tag'],
+    'random': ['Core.Model.__init__'],
+    'environment': ['Core.Model.__init__', 'Core.Model.set_environment'],
+    '_tag_counter': ['Tags.TagLibrary.__init__', 'Tags.TagLibrary.add_tag'],
+    '_tag_names': ['Tags.TagLibrary.__init__', 'Tags.TagLibrary.add_tag'],
+    '_parameters': ['Batching.ParameterList.__init__', 'Batching.ParameterList.add_parameter',
+                    'Batching.ParameterList.remove_parameter'],
+    'records': ['Collectors.Collector.__init__', 'Collectors.AgentCollector.collect', 'Collectors.FileCollector.execute'],
+    'last_write': ['Collectors.FileCollector.__init__', 'Collectors.FileCollector.execute'],
+    'cells': ['Environments.DiscreteWorld.__init__', 'Environments.DiscreteWorld.add_cell_component',
+              'Environments.DiscreteWorld.remove_cell_component'],
+}
+
+PROPS.update({
+    'C07': dict(
+        level_text='Deductive proof of the effect contracts that make a trajectory a function of (seed, model code): '
+                   'Model.__init__ creates a fresh generator seeded with exactly the given seed; get_random_agent and '
+                   'shuffle draw only from self.model.random (receiver obligation on every generator call of the path) '
+                   'and only on the exact, insertion-ordered filter list proved under C13; a package-wide scan over every '
+                   'function shows that no ambient source is read (global random / numpy.random, unseeded generators, '
+                   'set / hash / id order, time, environment) and that model.random has a single writer. Trajectory '
+                   'equality itself follows by induction over steps under the stated assumptions - no second run is '
+                   'executed by the proof (a differential native run is part of the run-time layer).',
+        level_note='Assumed, not proved: random.Random is a deterministic function of seed and call history and '
+                   'independent of the global generator; dict / list iteration order (engine semantics); user systems are '
+                   'themselves deterministic; seed=None is excluded (OS entropy).',
+        functions=['Core.Model.__init__', 'Core.Environment.get_random_agent', 'Core.Environment.shuffle',
+                   'Core.Environment.get_agents'],
+        scans=[dict(kind='reads'), dict(kind='writers', table={'random': WRITERS['random']})],
+        assumptions=ENV_ASSUME + ['random.Random: deterministic function of seed and call history, independent of the '
+                                  'global generator', 'user systems / agents are deterministic given the model generator']),
+})
+for _cid, _fields in dict(C06=['_status', 'timestep'], C01=['execution_queue', 'systems'], C03=['component_pools'],
+                          C04=['agents'], C20=['_components', '_tag'], C19=['_tag_counter', '_tag_names'],
+                          C14=['_parameters'], C17=['records', 'last_write'], C09=['cells']).items():
+    PROPS[_cid].setdefault('scans', []).append(dict(kind='writers', table={f: WRITERS[f] for f in _fields}))
+
 NOT_APPLICABLE = {}
